@@ -706,7 +706,10 @@ def write_evidence(prop, tier, seed, records, complete, bounded, canaries, n_obl
             'known_findings_reported': [f'{h.id}: {d}' for k, h, d in known_hits],
             'undecided': [f'{u}: {r}' for u, r in undecided],
             'violations': [{'obligation': v['id'], 'replay': v.get('replay'), 'native_replay': v.get('native_replay')} for v in violations],
-            'explanation': notes.get('explanation', ''),
+            'explanation': notes.get('explanation') or (manifest.get('level_claimed') or {}).get('text', '') or 'see DESIGN.md',
+            'evaluations': sum(max(1, r.get('checks_total', r.get('vcs', 1)) or 1) for r in records),
+            'distinct_nontrivial': sum(1 for r in records if r['status'] == 'discharged'),
+            'rule': 'one evaluation = one verifier check (CBMC property / Verus VC) or one native enumeration test; distinct_nontrivial = number of obligation units (harnesses, extracted functions, enumerations) with status discharged, each of which carries at least one assertion written from the property statement',
             'exhaustive': False,
         },
         'assumptions': notes.get('assumptions', []) + [
